@@ -19,6 +19,8 @@ import GT.Lemmas.RepDerived
 import GT.Lemmas.Fox
 import GT.Lemmas.Names
 import GT.Lemmas.Sym2Rep
+import GT.Lemmas.RepHomUnits
+import GT.Lemmas.SlnAdjoint
 import Mathlib.Data.ZMod.Basic
 import Mathlib.Tactic.FinCases
 
@@ -181,6 +183,24 @@ theorem gln_adjoint_hom {ρ : Rep n R} {σ : Rep (n * n) R} (hc : ρ.Coherent)
     simp only [Except.ok.injEq] at hB
     subst hB
     rw [Rep.glnAdjointMat_toMatrix, Matrix.inv_eq_right_inv hX]
+
+/-- `rep.sln_adjoint()`: `w ↦` the matrix of `M ↦ ρ(w)·M·ρ(w)⁻¹` on traceless matrices in the
+basis `E_ij (i ≠ j), E_ii − E_nn` (`Rep.slnAd`, the literal `sln_linear_action`); it is
+multiplicative because conjugation by an invertible matrix preserves the trace
+(`Rep.slnAd_mul`, `Rep.slnAd_one`) -/
+theorem sln_adjoint_hom {k : ℕ} {ρ : Rep (k + 1) R} {σ : Rep ((k + 1) * (k + 1) - 1) R}
+    (hc : ρ.Coherent) (hσ : ρ.slnAdjoint = .ok σ) {w : Word}
+    {A : Matrix (Fin (k + 1)) (Fin (k + 1)) R} (hw : ρ.value w = .ok A) :
+    σ.value w = .ok (Rep.slnAd A A⁻¹) := by
+  refine Rep.compose_value_units (fun X => Rep.slnAd X X⁻¹) ?_ ?_ ?_ hc hσ hw
+  · simp [Rep.slnAd_one]
+  · intro X Y _ _ hY _
+    simp only [Matrix.mul_inv_rev]
+    exact Rep.slnAd_mul hY
+  · intro X Xi B hB hX
+    simp only [Except.ok.injEq] at hB
+    subst hB
+    rw [Rep.slnAdjointMat_toMatrix, Matrix.inv_eq_right_inv hX]
 
 /-- the double `np.concatenate` of `np.tensordot(A, B, axes=0)` is Mathlib's Kronecker product -/
 theorem tensorMat_eq_kronecker {p : ℕ} (A : DMat n n R) (B : DMat p p R) :
@@ -369,6 +389,12 @@ example : ∃ σ A, exRep.glnAdjoint = .ok σ ∧ exRep.value ["a", "b"] = .ok A
   obtain ⟨σ, hσ⟩ : ∃ σ, exRep.glnAdjoint = .ok σ := ⟨_, rfl⟩
   obtain ⟨A, hA⟩ : ∃ A, exRep.value ["a", "b"] = .ok A := ⟨_, rfl⟩
   exact ⟨σ, A, hσ, hA, gln_adjoint_hom exRep_coherent hσ hA⟩
+
+example : ∃ σ A, Rep.slnAdjoint exRep = .ok σ ∧ exRep.value ["a", "b"] = .ok A ∧
+    σ.value ["a", "b"] = .ok (Rep.slnAd A A⁻¹) := by
+  obtain ⟨σ, hσ⟩ : ∃ σ, Rep.slnAdjoint exRep = .ok σ := ⟨_, rfl⟩
+  obtain ⟨A, hA⟩ : ∃ A, exRep.value ["a", "b"] = .ok A := ⟨_, rfl⟩
+  exact ⟨σ, A, hσ, hA, sln_adjoint_hom exRep_coherent hσ hA⟩
 
 private theorem exNames : Rep.NamesOK invertGen exRep.asymGens := by
   rw [exRep_asymGens]
